@@ -50,8 +50,31 @@ fn is_keyword(kind: &str) -> bool {
     )
 }
 
+/// whether two tokens may stand directly next to each other: the lexical grammar still separates them (a bracket or a
+/// comma next to anything; a word or a string next to an operator; a number directly before a word - `3TIMES` is the
+/// number 3 and the word TIMES, a number being digits with an optional fraction; two operators unless their characters
+/// would form another token or a comment)
+fn may_glue(t: &Tok, next: &Tok) -> bool {
+    if is_bracketish(t) || is_bracketish(next) {
+        return true;
+    }
+    let (Some(a), Some(b)) = (t.lexeme.chars().last(), next.lexeme.chars().next()) else { return false };
+    let word = |c: char| c.is_alphanumeric() || c == '_';
+    if a == '.' || b == '.' || a == '\\' || b == '\\' {
+        return false;
+    }
+    if word(a) && word(b) {
+        return t.kind == "Number" && (b.is_alphabetic() || b == '_');
+    }
+    if word(a) || word(b) || a == '"' || b == '"' {
+        return true;
+    }
+    !matches!((a, b), ('<', '-') | ('<', '=') | ('>', '=') | ('=', '=') | ('!', '=') | ('/', '/') | ('<', '<') | ('-', '>'))
+}
+
 /// render a token stream under a random admissible layout and keyword casing
-/// mode 0: random; 1: everything on one line (`;` terminators, single blanks); 2: a line break wherever one is admissible
+/// mode 0: random; 1: everything on one line (`;` terminators, single blanks); 2: a line break wherever one is admissible;
+/// 3: no separator wherever the lexical grammar needs none (`;` terminators)
 fn render_layout(toks: &[Tok], enders: &[String], rng: &mut Rng, mode: u8) -> String {
     let mut s = String::new();
     if mode == 0 && rng.chance(1, 4) {
@@ -70,6 +93,10 @@ fn render_layout(toks: &[Tok], enders: &[String], rng: &mut Rng, mode: u8) -> St
             let next_closes = toks[i + 1..].iter().find(|t| t.kind != "SoftSemi").map(|t| t.kind == "RightBrace" || t.kind == "Eof").unwrap_or(true);
             if mode == 1 {
                 s.push_str("; ");
+                continue;
+            }
+            if mode == 3 {
+                s.push(';');
                 continue;
             }
             if mode == 2 {
@@ -100,11 +127,12 @@ fn render_layout(toks: &[Tok], enders: &[String], rng: &mut Rng, mode: u8) -> St
         // the separator before the next token
         if i + 1 < n && toks[i + 1].kind != "SoftSemi" && toks[i + 1].kind != "Eof" {
             let next = &toks[i + 1];
-            let may_join = is_bracketish(t) || is_bracketish(next);
+            let may_join = may_glue(t, next);
             let may_break = !enders.contains(&t.kind);
             let k = match mode {
                 1 => 11,
                 2 => 6,
+                3 => 0,
                 _ => rng.below(12),
             };
             let sep = match k {
@@ -167,9 +195,9 @@ pub fn c06(ctx: &Ctx) -> PropResult {
             cases.push(Case::new(Kind::Run, rendered).tag("layout").aux(p.clone()));
         }
         // the two extreme layouts: the whole program on one line, and a line break wherever one is admissible
-        for mode in [1u8, 2] {
+        for mode in [1u8, 2, 3] {
             let rendered = render_layout(&toks, &enders, &mut rng, mode);
-            cases.push(Case::new(Kind::Run, rendered).tag("layout").tag(if mode == 1 { "layout:one-line" } else { "layout:max-breaks" }).aux(p.clone()));
+            cases.push(Case::new(Kind::Run, rendered).tag("layout").tag(["", "layout:one-line", "layout:max-breaks", "layout:no-separators"][mode as usize]).aux(p.clone()));
         }
         cases.push(Case::new(Kind::Lex, p.clone()).tag("canonical-lex"));
     }
@@ -292,7 +320,7 @@ pub fn c06(ctx: &Ctx) -> PropResult {
     let stats = run_cases(&ctx.driver, cases, &oracle, &no_known, ctx.threads);
     PropResult {
         stats,
-        rule: format!("{} programs (the repository's tests and examples, generated programs) -> token stream -> {} random admissible renderings each: at every token boundary one of nothing (only next to a bracket or comma), blanks, tab, CR, backslash-newline, and - where the previous token cannot end a statement - newline, CRLF, blank lines or a // comment with non-ASCII text; every terminator as newline, CRLF, comment+newline or ';'; every keyword independently upper or lower case; leading and trailing blank/comment material; implementation-only oracle: same tokens (kinds, literals, text) and same behaviour as the canonical layout; the variant is also run through the model; converse clause: for every token kind a newline (or comment+newline) after it yields a terminator exactly for the kinds of the extracted ender set", programs.len(), per),
+        rule: format!("{} programs (the repository's tests and examples, generated programs) -> token stream -> {} random admissible renderings each: at every token boundary one of nothing (only next to a bracket or comma), blanks, tab, CR, backslash-newline, and - where the previous token cannot end a statement - newline, CRLF, blank lines or a // comment with non-ASCII text; every terminator as newline, CRLF, comment+newline or ';'; every keyword independently upper or lower case; leading and trailing blank/comment material; implementation-only oracle: same tokens (kinds, literals, text) and same behaviour as the canonical layout; the variant is also run through the model; converse clause: for every token kind a newline (or comment+newline) after it yields a terminator exactly for the kinds of the extracted ender set; the fourth extreme layout leaves out every separator the lexical grammar does not need (a number directly before a word, words next to operators)", programs.len(), per),
         exhaustive: false,
         notes: vec![],
     }
